@@ -106,7 +106,7 @@ ClassClauses(o, e, cpp) ==
   \o If(o.has_display, "C10:" \o w \o ":display")
   \o If(SameBag(Names(realMethods), Names(e.methods)), "C10:" \o w \o ":one-method-per-distinct-method-name")
   \o If(SameBag(Names(realStatics), Names(e.statics)), "C10:" \o w \o ":one-static-per-distinct-static-name")
-  \o If(Names(o.getters) = e.getters /\ Names(o.setters) = e.getters, "C10:" \o w \o ":property-accessors")
+  \o If(Names(o.getters) = e.getters /\ Names(o.setters) = e.setters, "C10:" \o w \o ":property-accessors")
   \o If(e.serialize = InSeq("string_serialize", Names(o.methods)) /\ e.serialize = InSeq("string_deserialize", Names(o.statics)),
         "C10:" \o w \o ":serialization-methods")
   \* constructors: arities and guards
@@ -153,17 +153,20 @@ ClassClauses(o, e, cpp) ==
                          If(GuardOf(oms[1].overloads[i]) = ExpGuard(em.overloads[i]), "C06:" \o where \o ":guard")
                       \o (IF r.name = "" THEN <<"C05:" \o where \o ":id-without-unique-routine">> ELSE CallRoutine(r, e, em.overloads[i], where))])])
   \* property accessors
-  \o FlatSeq([i \in 1..(IF Len(o.getters) = Len(e.props) /\ Len(o.setters) = Len(e.props) THEN Len(e.props) ELSE 0) |->
-        LET p == e.props[i] gr == RoutineOfId(cpp, o.getters[i].id) sr == RoutineOfId(cpp, o.setters[i].id)
+  \o FlatSeq([i \in 1..(IF Len(o.getters) = Len(e.props) THEN Len(e.props) ELSE 0) |->
+        LET p == e.props[i] gr == RoutineOfId(cpp, o.getters[i].id)
             where == w \o "." \o p.name IN
         (IF gr.name = "" THEN <<"C05:" \o where \o ".get:id-without-unique-routine">>
          ELSE If(gr.kind = "call" /\ gr.self_unwrap.cpp = e.cpp /\ gr.check.name = p.name /\ gr.check.count = 0 /\ gr.call = "obj->" \o p.name,
                  "C05:" \o where \o ".get:case-runs-routine-of-other-member")
-           \o If(ObsOuts(gr) = <<p.getter_out>>, "C06:" \o where \o ".get:return-wrapping"))
-        \o (IF sr.name = "" THEN <<"C05:" \o where \o ".set:id-without-unique-routine">>
-            ELSE If(sr.kind = "call" /\ sr.self_unwrap.cpp = e.cpp /\ sr.check.name = p.name /\ sr.check.count = 1,
-                    "C05:" \o where \o ".set:case-runs-routine-of-other-member")
-              \o If(ObsUnwraps(sr) = <<p.setter_unwrap>> /\ sr.call = p.setter_assign, "C06:" \o where \o ".set:marshalling"))])
+           \o If(ObsOuts(gr) = <<p.getter_out>>, "C06:" \o where \o ".get:return-wrapping"))])
+  \o FlatSeq([i \in 1..(IF Len(o.setters) = Len(e.setters) THEN Len(e.setters) ELSE 0) |->
+        LET p == SelectSeq(e.props, LAMBDA q : ~q.const)[i] sr == RoutineOfId(cpp, o.setters[i].id)
+            where == w \o "." \o p.name IN
+        (IF sr.name = "" THEN <<"C05:" \o where \o ".set:id-without-unique-routine">>
+         ELSE If(sr.kind = "call" /\ sr.self_unwrap.cpp = e.cpp /\ sr.check.name = p.name /\ sr.check.count = 1,
+                 "C05:" \o where \o ".set:case-runs-routine-of-other-member")
+           \o If(ObsUnwraps(sr) = <<p.setter_unwrap>> /\ sr.call = p.setter_assign, "C06:" \o where \o ".set:marshalling"))])
 
 FuncClauses(o, e, cpp) ==
   If(Len(o.overloads) = Len(e.overloads), "C06:" \o e.name \o ":arities")
